@@ -67,6 +67,31 @@ Theorem C09_par_atomic : forall (Ind R E : Type) (cm : op R (list Ind) Ind E) po
 Proof. exact @par_atomic. Qed.
 Print Assumptions C09_par_atomic.
 
+(* any population type (size + collection from the children): exactly size-many children made from the old population
+   are collected; on failure nothing changes *)
+Theorem C09_any_collection_step : forall (P Ind R E : Type) (size : P -> nat) (collect : list Ind -> P) (cm : op R P Ind E) pop r,
+  (forall pop' r', serial_next_c size collect cm pop r = (inl tt, pop', r') ->
+     exists children, repeat_ (size pop) cm pop r = (inl children, r') /\ length children = size pop /\ pop' = collect children) /\
+  (forall e pop' r', serial_next_c size collect cm pop r = (inr e, pop', r') ->
+     pop' = pop /\ repeat_ (size pop) cm pop r = (inr e, r')).
+Proof. exact (fun P Ind R E size collect cm pop r => conj (serial_c_success size collect cm pop r) (fun e => serial_c_atomic size collect cm pop r e)). Qed.
+Print Assumptions C09_any_collection_step.
+
+(* over several steps of one Generation value each step makes as many children as the population has AT THAT STEP
+   (for a set-typed population, whose equal children merge, that number changes from step to step) *)
+Theorem C09_steps_follow_current_size : forall (P Ind R E : Type) (size : P -> nat) (collect : list Ind -> P) (cm : op R P Ind E) k pop r i p_i p_next,
+  nth_error (pop :: steps_c size collect cm k pop r) i = Some p_i ->
+  nth_error (pop :: steps_c size collect cm k pop r) (S i) = Some p_next ->
+  exists children, length children = size p_i /\ p_next = collect children.
+Proof. exact @steps_follow_current_size. Qed.
+Print Assumptions C09_steps_follow_current_size.
+
+(* an ordered set of integers keeps exactly the distinct children, in order, and is never larger than their number *)
+Theorem C09_set_population : forall l,
+  (forall y, In y (sort_dedup l) <-> In y l) /\ Sorted.StronglySorted BinInt.Z.lt (sort_dedup l) /\ length (sort_dedup l) <= length l.
+Proof. exact sort_dedup_spec. Qed.
+Print Assumptions C09_set_population.
+
 Example C09_example :
   let cm : op nat (list nat) nat unit := fun pop r => if Nat.eqb r 12 then (inr tt, S r) else (inl (length pop * 100 + r), S r) in
   serial_next cm [7; 8; 9] 5 = (inl [305; 306; 307], [305; 306; 307], 8) /\
